@@ -158,6 +158,7 @@ func (b vfBurst) frameEnds() (ends []int64, chunks []int) {
 }
 
 type vfDirState struct {
+	readerPaused bool // the application reading this direction has stopped calling Read for now
 	bursts  []vfBurst
 	written int // plaintext bytes written
 	hsLen   int64
@@ -245,7 +246,7 @@ func vfC01Check(rt *rapid.T, p *vfPair, dirs *[2]vfDirState, hist []string) {
 			}
 			rt.Fatalf("VIOL[c01-corrupt]: %s read %d bytes that are not a prefix of the %d bytes its peer wrote (first difference at %d)\nhistory: %v", rname, len(got), len(full), i, hist)
 		}
-		if len(got) < want {
+		if len(got) < want && !dirs[d].readerPaused {
 			rt.Fatalf("VIOL[c01-not-readable]: direction %s: %d ciphertext bytes released carry %d plaintext bytes in complete frames, but %s has only obtained %d and is parked (needs further traffic)\nhistory: %v", side, rel, want, rname, len(got), hist)
 		}
 	}
@@ -293,6 +294,7 @@ func vfC01Case(rt *rapid.T, c *ev.Collector) {
 	coalesced := false
 	readSized := false
 	heldWrites := false
+	pausedReaders := false
 	multiFrame := [2]bool{}
 
 	eps := [2]*drive.Endpoint{p.Cl, p.Sv}
@@ -528,11 +530,43 @@ func vfC01Case(rt *rapid.T, c *ev.Collector) {
 				rt.Fatalf("VIOL[c01-wedge]: %s Write(%d) did not return within 60 s after the transport accepted it again\nhistory: %v\n%s", side, n, hist, wire.Stacks())
 			}
 			postWrite(w)
+		case a < 97:
+			// the application reading direction d stops calling Read (after 0-2 more
+			// small Reads) while everything else goes on, and resumes later: what has
+			// arrived meanwhile sits inside the transport
+			d := rapid.IntRange(0, 1).Draw(rt, "pauseDir")
+			reader := eps[1-d]
+			if reader.Conn() == nil {
+				continue
+			}
+			if dirs[d].readerPaused {
+				reader.Resume()
+				dirs[d].readerPaused = false
+				hist = append(hist, fmt.Sprintf("resumeReader(%s)", wire.Side(1-d)))
+				vfWait(rt, p, hist)
+				vfC01Check(rt, p, &dirs, hist)
+			} else {
+				k := rapid.IntRange(0, 2).Draw(rt, "pauseAfter")
+				if k > 0 {
+					reader.SetBuf(rapid.SampledFrom([]int{1, 7, 64}).Draw(rt, "pauseBuf"))
+				}
+				reader.Pause(k)
+				dirs[d].readerPaused = true
+				pausedReaders = true
+				hist = append(hist, fmt.Sprintf("pauseReader(%s,after=%d)", wire.Side(1-d), k))
+			}
 		default:
 			d := rapid.IntRange(0, 1).Draw(rt, "bufSide")
 			k := rapid.SampledFrom([]int{1, 7, 1427, 65536}).Draw(rt, "bufSize")
 			eps[1-d].SetBuf(k) // reader of direction d is the other endpoint
 			hist = append(hist, fmt.Sprintf("readBuf(%s,%d)", wire.Side(1-d), k))
+		}
+	}
+	for d := 0; d < 2; d++ {
+		if dirs[d].readerPaused {
+			eps[1-d].Resume()
+			dirs[d].readerPaused = false
+			hist = append(hist, fmt.Sprintf("resumeReader(%s)", wire.Side(1-d)))
 		}
 	}
 	// drain: everything written must arrive without further traffic
@@ -570,6 +604,9 @@ func vfC01Case(rt *rapid.T, c *ev.Collector) {
 	if heldWrites {
 		cls = append(cls, "write-blocked-at-transport-while-reading")
 	}
+	if pausedReaders {
+		cls = append(cls, "application-paused-reading")
+	}
 	if strings.Contains(strings.Join(hist, " "), "(0)") {
 		cls = append(cls, "zero-length-write")
 	}
@@ -585,7 +622,7 @@ func vfC01Case(rt *rapid.T, c *ev.Collector) {
 func TestVerifC01Lockstep(t *testing.T) {
 	vfSetup(t)
 	c := ev.For("C01")
-	c.Rule("lockstep: real client and real server (public factories) on a gated in-memory wire; generated bridge (seed incl. tables containing 0, IAT mode, bias, bridge-line form), then up to 40 actions write(side,n)/release(direction, segment plan: 1-byte runs, 2, to a frame/burst/handshake-field boundary -1/0/+1, k, all, exactly one or two read buffers (23168 bytes) -1/0/+1); iat-mode 0 writes occasionally 23168..70000 bytes/reader buffer size, handshake bytes released by the same actions; a Write held at the transport (blocked before the wire looks at its bytes, as on a full socket buffer) while 1-3 segments are released to the same endpoint's reader; oracle after every action at quiescence: bytes obtained are a prefix of what the peer wrote and at least the plaintext of all payload frames completely released; at the end everything is released and both streams must be complete; non-trivial = a multi-frame write, data in both directions, a release ending strictly inside a frame, and (handshake+payload coalesced in one segment or a 1-byte run across a frame header); fingerprint = configuration + action list")
+	c.Rule("lockstep: real client and real server (public factories) on a gated in-memory wire; generated bridge (seed incl. tables containing 0, IAT mode, bias, bridge-line form), then up to 40 actions write(side,n)/release(direction, segment plan: 1-byte runs, 2, to a frame/burst/handshake-field boundary -1/0/+1, k, all, exactly one or two read buffers (23168 bytes) -1/0/+1); iat-mode 0 writes occasionally 23168..70000 bytes/reader buffer size, handshake bytes released by the same actions; a Write held at the transport (blocked before the wire looks at its bytes, as on a full socket buffer) while 1-3 segments are released to the same endpoint's reader; an application that stops calling Read for a while (after 0-2 small Reads) and resumes later; oracle after every action at quiescence: bytes obtained are a prefix of what the peer wrote and at least the plaintext of all payload frames completely released; at the end everything is released and both streams must be complete; non-trivial = a multi-frame write, data in both directions, a release ending strictly inside a frame, and (handshake+payload coalesced in one segment or a 1-byte run across a frame header); fingerprint = configuration + action list")
 	c.Floor("write-blocked-at-transport-while-reading/lockstep", 0.03)
 	c.Assume("frame layout of a burst (payload frames of <= 1427 bytes first, padding frames after) as stated in the property's mechanism; interleavings explored at action granularity")
 	c.Floor("iat-0/lockstep", 0.15)
